@@ -7,7 +7,7 @@ CFG = {'assumptions': ['f64 inputs cross the boundary as bit patterns (non-finit
                  'tag only; a hole equal to the shell is not "inside" it',
                  'a complaint about a PAIR of rings / members one of which is itself malformed is accepted as '
                  'naming a defective ring (relations between non-simple rings are not well defined)'],
- 'count': {'quick': 12000, 'thorough': 500000},
+ 'count': {'quick': 10000, 'thorough': 400000},
  'lean_files': ['GeoModel/Validation.lean', 'GeoModel/ValidationSpec.lean', 'GeoModel/Valid.lean',
                 'GeoModel/RelateSpec.lean', 'GeoModel/Ops/C14.lean'],
  'rule': 'a quarter valid shapes of all types from the shared generators (two representations), the rest '
@@ -52,7 +52,8 @@ MANIFEST = {'note': 'Trusted: Lean 4.33 kernel (axioms propext, Classical.choice
          'nonFinite_rejected. F8: three_segment_ring_accepted_on_pinned_tree (the pinned loop never reported a '
          '3-segment ring), flat_ring_has_self_intersection and flat_ring_polygon_invalid (after the fix every '
          'ring of three distinct collinear points is rejected, for every oracle), chained_pair_flagged_iff, '
-         'pairBad_unchained, selfIntersection_iff_pair. NOT proved: hasSelfIntersection = false <-> ringSimple '
+         'pairBad_unchained, selfIntersection_iff_pair. Other types against the specification: '
+         'lineString_tooFew_iff_spec, lineString_valid_iff_spec, triangle_valid_iff_spec. NOT proved: hasSelfIntersection = false <-> ringSimple '
          '(exercised by the correspondence on every generated ring instead). The correspondence runs is_valid, check_validation and '
          'validation_errors of the real code (concrete type and through the Geometry enum) against the model, '
          'and judges the implementation\'s answers against an independent specification (ringSimple + the '
